@@ -766,6 +766,9 @@ def run_world(spec, alarm=10):
                 loop_timeout=R.EventTime(timeout, R.US),
                 scheduler_frequency=R.EventTime(spec["sched"]["freq"], R.US))
             o.sim = sim
+            if spec["sched"].get("at_worker_free"):
+                # what main.py's --scheduler_run_at_worker_free sets (the Simulator reads it from the flags)
+                sim._run_scheduler_at_worker_free = True
             o.calls["Simulator.simulate"] += 1
             sim.simulate()
             o.outcome = "ended"
@@ -2069,6 +2072,7 @@ def gen_worlds(pid, tier, seed):
     if pid == "C05":
         worlds.extend(zero_runtime_worlds(tier))
         worlds.extend(freq0_worlds(tier))
+        worlds.extend(worker_free_worlds(tier))
     if pid == "C12":
         worlds.extend(ilp_worlds(tier))
     return worlds
@@ -2116,6 +2120,26 @@ def freq0_worlds(tier):
                                 "graphs": [g], "pools": POOLS[pool], "horizon": 12,
                                 "sched": {"name": sched, "enforce": False, "runtime": 0,
                                           "freq": 0}, "timeout": None})
+                    k += 1
+    return out
+
+
+def worker_free_worlds(tier):
+    """--scheduler_run_at_worker_free on single-worker / homogeneous clusters with releases that arrive while
+    the cluster is idle (period > runtime) or busy (period < runtime): the run must still reach its end with all
+    tasks completed"""
+    out = []
+    k = 0
+    shapes = ["single", "chain2"] if tier == "quick" else ["single", "chain2", "fork", "indep2"]
+    for shape in shapes:
+        for pool in ("c1", "c2"):
+            for sched in ("EDF", "FIFO"):
+                for period, n in ((7, 3), (1, 3)):
+                    rel = {"policy": "fixed", "period": period, "n": n, "start": 2}
+                    g = make_graph("G0", shape, "cpu1", (2, 2, 2, 2), "loose", rel, "jg")
+                    out.append({"id": "C05-wfree-%02d" % k, "seed": k, "mode": "jg", "graphs": [g], "pools": POOLS[pool],
+                                "horizon": 40, "sched": {"name": sched, "enforce": False, "runtime": 0, "freq": -1,
+                                                         "at_worker_free": True}, "timeout": 2000})
                     k += 1
     return out
 
